@@ -20,8 +20,8 @@ var gateSets = map[string][]string{
 	"core":     {"runWith.checked", "runWith.beforeSignal", "work.beforeCall", "work.afterCall", "cb.mid"},
 	"mid":      {"cb.mid", "runWith.checked"},
 	"listener": {"listener.msg", "runWith.checked", "cb.mid", "work.afterCall"},
-	"shutdown": {"runWith.checked", "runWith.beforeSignal", "close.enter", "close.beforeBroadcast", "close.afterBroadcast", "close.done", "shutdown.cas", "shutdown.drained", "shutdown.done", "publish.before", "cb.mid", "work.beforeCall", "worker.start"},
-	"shutlite": {"runWith.checked", "close.enter", "close.beforeBroadcast", "shutdown.done", "publish.before", "cb.mid"},
+	"shutdown": {"runWith.checked", "runWith.beforeSignal", "close.enter", "close.beforeBroadcast", "close.afterBroadcast", "close.done", "shutdown.cas", "shutdown.drained", "shutdown.done", "publish.before", "cb.mid", "work.beforeCall", "worker.start", "serve.onserve"},
+	"shutlite": {"runWith.checked", "close.enter", "close.beforeBroadcast", "shutdown.done", "publish.before", "cb.mid", "serve.onserve"},
 	"query":    {"qexpire.enter", "qexpire.drained", "qlistener.msg", "runWith.checked", "cb.mid"},
 }
 
